@@ -66,14 +66,19 @@ def check_decode(ck, F, rule):
     # accepted spellings: if is_ok {Ok(unwrap)} else {Err(..)}, match, map_err
     okv = errv = None
     why = repr(ret)
-    if isinstance(ret, Ite) and getattr(ret.cond, "op", "") == "is_ok":
-        a_, b_ = (ret.a, ret.b) if not ret.cond.neg else (ret.b, ret.a)
-        if isinstance(a_, Enum) and a_.variant == "Ok" and isinstance(b_, Enum) and b_.variant == "Err":
-            okv, errv = a_.payload[0], b_.payload[0]
-    elif isinstance(ret, Opaque) and ret.what == "result":
+    from . import analyses as AN_
+
+    guards = []
+    if isinstance(ret, Opaque) and ret.what == "result":
         okv, errv = ret.info.get("ok"), ret.info.get("err")
+        guards = [it for it in I.trace.items if it[0] == "guard"]
+    else:
+        chain, final = AN_.exit_chain(I, ret)
+        if len(chain) == 1 and getattr(chain[0][0], "op", "") == "is_ok" and chain[0][0].neg and isinstance(final, Enum) and final.variant == "Ok" and isinstance(chain[0][1], Enum):
+            okv, errv = final.payload[0], chain[0][1].payload[0]
+        else:
+            guards = [(None, c_, e_) for c_, e_, _ in chain]
     good = isinstance(okv, Opaque) and okv.what == "decoded" and okv.info.get("via") == "deserialize_compressed" and isinstance(errv, Enum) and errv.variant == "FormatError" and "R1CSError" in errv.path
-    guards = [it for it in I.trace.items if it[0] == "guard"]
     ck.require(good and not guards, rule, "from_bytes:all-failures-FormatError", f"from_bytes must return the decoded proof when decoding is Ok and Err(R1CSError::FormatError) otherwise, with no other exit; got {why}, early exits {[(str(g[1]), repr(g[2])) for g in guards]}", where)
     cur = [n for n in FX.walk(fn["body"]) if FX.callee_info(n).get("path", "").endswith("io::Cursor::<T>::new")]
     ck.require(len(cur) == 1, rule, "from_bytes:cursor-over-input", "from_bytes must read through one Cursor over the input slice", where)
@@ -94,7 +99,12 @@ def check_encode(ck, F, rule):
     except Unanalysable as u:
         ck.fail(rule, "to_bytes:shape", f"unanalysable: {u.msg}", u.where or where, kind="unanalysable")
         return
-    ok = isinstance(ret, Enum) and ret.variant == "Ok" and isinstance(ret.payload[0], Bytes) and len(ret.payload[0].parts) == 1 and ret.payload[0].parts[0][0] == "compressed" and ret.payload[0].parts[0][1] is pf
+    from . import analyses as AN_
+
+    # exits other than Ok(bytes) may only propagate a failure of the encoder itself (`?`, match, map_err spellings)
+    chain, fin = AN_.exit_chain(I, ret)
+    only_enc_errors = all((getattr(c_, "op", "") == "is_ok" and c_.neg) or (getattr(c_, "op", "") == "other" and getattr(c_, "text", "") == "io-error") for c_, _, _ in chain)
+    ok = only_enc_errors and isinstance(fin, Enum) and fin.variant == "Ok" and isinstance(fin.payload[0], Bytes) and len(fin.payload[0].parts) == 1 and fin.payload[0].parts[0][0] == "compressed" and fin.payload[0].parts[0][1] is pf
     ck.require(ok, rule, "to_bytes:whole-self", f"to_bytes must return exactly the compressed encoding of self (deterministic: reads only self); got {ret!r}", where)
 
 
